@@ -427,6 +427,10 @@ def main(factory_mod, factory_name, argv=None):
         os.makedirs(os.path.join(VERIF, "evidence"), exist_ok=True)
         with open(os.path.join(VERIF, "evidence", f"{chk.prop}.json"), "w") as f:
             json.dump(ev, f, indent=1, sort_keys=True, default=repr)
+        if a.tier == "thorough":       # keep a copy: the quick run on every change rewrites evidence/<id>.json
+            os.makedirs(os.path.join(VERIF, "evidence", "thorough"), exist_ok=True)
+            with open(os.path.join(VERIF, "evidence", "thorough", f"{chk.prop}.json"), "w") as f:
+                json.dump(ev, f, indent=1, sort_keys=True, default=repr)
     print(f"{chk.prop}: runs={agg['n']} nontrivial_distinct={len(agg['digests'])} decisions={agg['decisions']} "
           f"wall={wall:.1f}s known={sum(known_seen.values())} fresh_violations={len(fresh)}")
     sys.exit(rc)
